@@ -105,6 +105,23 @@ def cases(tier):
         spec = model(shape, dt, data, yf, myf, lim, prog, scen)
         if spec is not None:
             yield spec
+    # other routes to an integrated model (pickled / deep-copied after building, as the optimiser does; quantities read before integration),
+    # with an additional output-only parameter whose function depends on time alone
+    for via in simspace.VIAS:
+        for shape, dt, data, prog in itertools.product(shapes, dts[:2], ["assume", "three"], [False, True]):
+            spec = model(shape, dt, data, 0.5, 1.5, "both", prog, None)
+            if spec is not None:
+                spec["pars"].append(dict(name="disc", fmt="number", fn="exp(-0.03*(t-2000))"))
+                spec["pars"].append(dict(name="ddisc", fmt="number", fn="disc*2+dt"))
+                spec["via"] = via
+                yield spec
+    # function parameters whose dependencies are changed by the initial junction flush: index 0 must be the function of the stored index-0 sizes
+    for spec in simspace.junctions(tier):
+        g = spec["gadget"]
+        if g["psrc"] == "fn" and g["jinit"] and g["ok"]:
+            spec["pars"].append(dict(name="fb", fmt="number", fn="b+2*c"))
+            spec["c06"] = dict(shape="junction_flush")
+            yield spec
     # "initial-size data are scaled by calibration factors in the same way": the initialisation cases of C07 that carry a calibration
     # factor (on a compartment, on a characteristic, on the denominator of a fraction, on the fraction itself) with consistent data
     from mc.props import c07
